@@ -325,7 +325,27 @@ func runC14(c *Ctx) {
 		}
 	}
 	c.obF("R14.5", sh, "header-writes-canonical", okCanon, "header parameters are written under their canonical name", "")
-	c.min("R14.5", 5)
+	// a key written to the query by the auth writer is a client-set parameter: the snapshot of client-set parameters
+	// that wins over static query parameters of the base path is taken after the auth writer ran
+	bh := p.Fn("(*rt/client.request).buildHTTP")
+	var authCalls []ssa.Instruction
+	for _, ci := range allCalls(bh) {
+		if ci.Common().IsInvoke() && ci.Common().Method.Name() == "AuthenticateRequest" {
+			authCalls = append(authCalls, ci)
+		}
+	}
+	snaps := callsIn(bh, "(*rt/client.request).GetQueryParams")
+	c.obF("R14.5", bh, "auth-writer-and-snapshot", len(authCalls) >= 1 && len(snaps) >= 1, "buildHTTP runs the auth writer and snapshots the client-set query parameters", fmt.Sprintf("%d auth writer calls, %d snapshots", len(authCalls), len(snaps)))
+	for _, sn := range snaps {
+		late := true
+		for _, a := range authCalls {
+			if pathExists(bh, sn, a, nil, nil) {
+				late = false
+			}
+		}
+		c.obI("R14.5", sn, "query-snapshot-after-auth-writer", late, "the client-set query parameters that take precedence over static ones are read after the auth writer ran (an API key written to the query is transmitted as written, whatever the base path carries)", "the auth writer can run after the snapshot: a static query parameter of the same name then replaces the credential")
+	}
+	c.min("R14.5", 7)
 
 	// R14.6 default credential
 	ch := p.Fn("(*rt/client.Runtime).createHttpRequest")
